@@ -400,6 +400,22 @@ def c17(ctx):
     ]
 
 
+class FeatureSweep(Stage):
+    """C19: build + run every feature configuration (python driver lib/c19.py)"""
+    name = "feature-configurations"
+    tool = "cargo build + run of reduced-feature probe binaries"
+    note = "each configuration is built from /repo's working tree and executed; transcripts compared with the full build"
+
+    def jobs(self, ctx):
+        outpath = os.path.join(ctx.rundir, "featsweep-0.json")
+        cmd = ["python3", os.path.join(ctx.root, "lib", "c19.py"), "--tier", ctx.tier, "--seed", str(ctx.seed), "--out", outpath, "--rundir", ctx.rundir]
+        return [("0", cmd, dict(os.environ), outpath, 5400)]
+
+
+def c19(ctx):
+    return [FeatureSweep()]
+
+
 PROPS = {
     "C01": {
         "level": "exploration",
@@ -549,5 +565,14 @@ PROPS = {
         "stages": c17,
         "floor": {"quick": 20000, "thorough": 200000},
         "required_classes": ["sum.overlapping-operation-pairs", "sum.history-steps"],
+    },
+    "C19": {
+        "level": "exploration",
+        "level_text": "Configuration sweep by execution: for paseto-v1..v4 a probe crate forwards exactly the requested same-named features to the crate under test; each configuration (quick: none, all, every single feature and mixed sets; thorough: all 45 distinct closures of the nine flags, each requested through its smallest generating subset) is built from /repo's working tree and run on fixed keys and on a corpus of tokens, wrapped and sealed keys produced by the full-feature build. Every 'operation=result' line of a reduced build (key texts, ids, fixed-nonce and deterministic tokens byte for byte, decrypt/verify/unwrap/unseal results incl. forged inputs, own-output round trips for randomized operations) must equal the full build's line, and the operations the closure promises must be present. paseto-core with/without serde and paseto-json with/without claims are built and run the same way.",
+        "level_note": "Trusted: the documented implication edges encoded in the probe's has-* flags and in lib/c19.py. A configuration that does not build while the full build does is reported as a violation with the first compiler error as witness (the build is the observation that precedes execution); if the full build fails too the run is inconclusive.",
+        "technique": "configuration sweep: build and execute reduced-feature probe binaries, compare transcripts with the full build",
+        "stages": c19,
+        "floor": {"quick": 40, "thorough": 180},
+        "required_classes": ["transcript-lines-compared"],
     },
 }
